@@ -87,6 +87,7 @@ class ShardResult:
         self.exhaustive = None
         self.extra = {}
         self.wall = 0.0
+        self.stop_after = None   # history replay: stop generating after this case index
 
     def add(self, case, res, index):
         self.cases += 1
@@ -143,6 +144,10 @@ def explore(shard, strategy, check_case, max_examples, seed, budget_s=None):
         i = state["i"]
         state["i"] += 1
         if state["stop"]:
+            return
+        stop_after = getattr(shard, "stop_after", None)
+        if stop_after is not None and i > stop_after:
+            state["stop"] = True
             return
         if budget_s is not None and time.time() - t0 > budget_s:
             state["stop"] = True
@@ -225,6 +230,14 @@ def _worker(args):
             mod.run_shard(spec, seed, tier, shard)
             shard.wall = time.time() - t0
             return ("ok", shard.to_dict())
+        elif mode == "prefix":
+            # history replay: regenerate the shard's cases 0..index in a fresh process (same seed => same sequence) to
+            # see whether a failure that does not reproduce on its own depends on the calls made before it
+            shard = ShardResult(spec["name"])
+            shard.stop_after = extra["index"]
+            mod.run_shard(spec, seed, tier, shard)
+            hits = [f for f in shard.failures if f["bucket"] == extra["bucket"] and f["index"] == extra["index"]]
+            return ("ok", hits)
         elif mode == "shrink":
             best = mod.shrink_shard(spec, seed, tier, extra["bucket"], extra["index"], extra["cap_s"])
             return ("ok", best)
@@ -454,6 +467,33 @@ def run_property(prop_id, tier, seed, only_shards=None, procs=None):
                         break
             if confirmed:
                 break
+        if confirmed is None and spec.get("kind", "").startswith("hyp") and not fast:
+            # not reproducible in isolation: does it depend on the history of calls in that worker (state surviving
+            # from one call to the next)? Re-run the shard's prefix twice in fresh processes; both must reproduce it.
+            hist = []
+            for _ in range(2):
+                with _pool(1) as pool:
+                    status, payload = pool.apply(_worker, ((prop_id, spec, seed * 1000 + spec["seed_offset"], tier, "prefix",
+                                                            {"bucket": bucket, "index": f0["index"]}),))
+                if status == "ok" and payload and match_known(mod, known, payload[0]) is None:
+                    hist.append(payload[0])
+                else:
+                    break
+            if len(hist) == 2:
+                os.makedirs(os.path.join(ROOT, "replays", prop_id), exist_ok=True)
+                safe = "".join(c if c.isalnum() or c in "-_." else "_" for c in bucket)[:80]
+                path = os.path.join("replays", prop_id, safe + ".history.json")
+                with open(os.path.join(ROOT, path), "w") as fh:
+                    json.dump({"property": prop_id, "bucket": bucket, "shard": f0["shard"], "spec": jsonable(spec),
+                               "history_replay": {"seed": seed * 1000 + spec["seed_offset"], "upto_index": f0["index"], "tier": tier},
+                               "case": f0["case"], "failures": [{k: hist[0][k] for k in ("bucket", "clause", "detail")}],
+                               "note": "fails only after the preceding cases of this shard were executed in the same process "
+                                       "(state carried from one call to the next); reproduced twice in fresh processes"}, fh, indent=1)
+                violations += 1
+                print("FAILURE property=%s bucket=%s clause=%s (history-dependent) detail=%s" % (
+                    prop_id, bucket, hist[0]["clause"], json.dumps(hist[0]["detail"])[:600]))
+                print("VIOLATION property=%s replay=%s" % (prop_id, path))
+                continue
         if confirmed is None:
             notes.append("bucket %s: %d failing case(s) observed but not reproduced on replay (logged as unconfirmed)" % (bucket, len(fs)))
             print("UNCONFIRMED property=%s bucket=%s (observed %d, not reproduced on replay)" % (prop_id, bucket, len(fs)))
@@ -492,6 +532,20 @@ def replay_file(prop_id, path):
         data = json.load(f)
     spec = data.get("spec") or {"name": data.get("shard", "replay")}
     _quiet()
+    if "history_replay" in data:
+        h = data["history_replay"]
+        shard = ShardResult(spec["name"])
+        shard.stop_after = h["upto_index"]
+        mod.run_shard(spec, h["seed"], h.get("tier", "quick"), shard)
+        _stop_loky()
+        hits = [f for f in shard.failures if f["bucket"] == data["bucket"] and f["index"] == h["upto_index"]]
+        for g in hits:
+            print("FAILURE property=%s bucket=%s clause=%s detail=%s" % (prop_id, g["bucket"], g["clause"], json.dumps(g["detail"])[:1000]))
+        if hits:
+            print("VIOLATION property=%s replay=%s" % (prop_id, path))
+            return 1
+        print("replay: property %s holds on this history" % prop_id)
+        return 0
     fails = mod.replay(unjson(data["case"]), spec)
     known = load_known(prop_id)
     unk = [g for g in fails if match_known(mod, known, dict(g, case=data["case"])) is None]
